@@ -42,7 +42,9 @@ func VerifSkipFloatExp(data []byte, p, pe int) (int, error) { return skipFloatEx
 func VerifGetu4(data []byte) rune { return getu4(data) }
 
 // VerifUnescapeUnicodeChar exposes unescapeUnicodeChar.
-func VerifUnescapeUnicodeChar(s, data []byte) ([]byte, int, bool) { return unescapeUnicodeChar(s, data) }
+func VerifUnescapeUnicodeChar(s, data []byte) ([]byte, int, bool) {
+	return unescapeUnicodeChar(s, data)
+}
 
 // VerifGrowBytesSliceCapacity exposes growBytesSliceCapacity.
 func VerifGrowBytesSliceCapacity(slice []byte, size int) []byte {
@@ -99,7 +101,7 @@ func VerifTables() (ws [256]bool, tt [256]TokenType, dg, sb, eb [256]bool, skipD
 // VerifReaderHints is a snapshot of a ValueReader's size hints and scratch capacities.
 type VerifReaderHints struct {
 	Depth, NewMapSize, LastMapSize, MaxMapSize, NewSliceSize, LastSliceSize int
-	FieldNameBufCap, StringBufCap, StackCap                                int
+	FieldNameBufCap, StringBufCap, StackCap                                 int
 }
 
 // VerifReaderState returns the reader's hints.
@@ -122,7 +124,9 @@ func VerifReadValueCompat(data []byte) (interface{}, int, error) { return readVa
 // Re-exports of the internal/fp hooks (internal packages cannot be imported from another module).
 
 // VerifFPReadFloat re-exports fp.VerifReadFloat.
-func VerifFPReadFloat(data []byte) (uint64, int, bool, bool, int, bool) { return fp.VerifReadFloat(data) }
+func VerifFPReadFloat(data []byte) (uint64, int, bool, bool, int, bool) {
+	return fp.VerifReadFloat(data)
+}
 
 // VerifFPAtof64exact re-exports fp.VerifAtof64exact.
 func VerifFPAtof64exact(m uint64, e int, neg bool) (float64, bool) {
